@@ -173,8 +173,10 @@ do_sign(const struct pline * l)
 	uint64_t seed = (uint64_t)l->a[8];
 	int expiry = (l->a[9] % 97 == 0) ? (int)2147483647 : (l->a[9] % 89 == 0) ? -(int)(l->a[9] % 1000) : (int)(l->a[9] % 1000000);
 	int afk = l->nargs > 13 ? (int)l->a[13] : -1;
+	int pooled = l->nargs > 14 && l->a[14] > 0;	/* scope components from a tiny pool: the same scope recurs with other secrets */
 	char * key_id = mkstr(unres, idlen, seed + 1, 0), * secret = mkstr(printable, seclen, seed + 2, 0);
-	char * region = mkstr(unres, reglen, seed + 3, 0), * bucket = mkstr(unres, buclen, seed + 4, 0);
+	char * region = pooled ? mkstr(unres, 9, (uint64_t)(l->a[14] % 2), 0) : mkstr(unres, reglen, seed + 3, 0);
+	char * bucket = pooled ? mkstr(unres, 5, (uint64_t)(l->a[14] % 3), 0) : mkstr(unres, buclen, seed + 4, 0);
 	char * path = mkstr(unres, pathlen, seed + 5, '/'), * op = mkstr(unres, buclen, seed + 6, 0);
 	const char * method = (seed & 1) ? "GET" : "PUT";
 	uint8_t * body = NULL;
@@ -184,7 +186,9 @@ do_sign(const struct pline * l)
 	char want_hash[65], want_sig[65];
 	struct { char * p; size_t n, cap; } cr = { NULL, 0, 0 };
 
-	if (l->a[10] >= 0) {
+	if (pooled) {
+		wall_now = 1700000000 + (l->a[14] % 2) * 40;	/* the same UTC day again */
+	} else if (l->a[10] >= 0) {
 		/* place the clock just before an interesting boundary */
 		static const int64_t bases[] = { 0, 86399, 951782399 /* 2000-02-28 23:59:59 */, 951868799 /* 2000-02-29 23:59:59 */,
 		    1704067199 /* 2023-12-31 23:59:59 */, 2147483647, 1709251199 /* 2024-02-29 23:59:59 */, 1700000000, 59, 3599,
@@ -665,6 +669,7 @@ engine_gen(struct plan * P, uint64_t seed, struct prng * g)
 	struct pline * l;
 
 	(void)seed;
+	plan_add(P, "knob", "tz", 1, (int64_t)(prng_chance(g, 40) ? 1 + prng_n(g, 4) : 0));
 	for (i = 0; i < n; i++) {
 		unsigned x = prng_n(g, 100);
 
@@ -672,13 +677,22 @@ engine_gen(struct plan * P, uint64_t seed, struct prng * g)
 			static const int64_t lens[] = { 0, 1, 2, 20, 40, 59, 60, 61, 100, 200 };
 			int faulty = prng_chance(g, 25);
 
-			plan_add(P, "step", "sign", 14, (int64_t)prng_n(g, 4), (prng_chance(g, 70) ? (int64_t)(1 + prng_n(g, 30)) : lens[prng_n(g, 10)]),
+			if (prng_chance(g, 12)) {
+				/* everything long: the strings the library formats are around a kilobyte */
+				plan_add(P, "step", "sign", 15, (int64_t)prng_n(g, 4), (int64_t)(120 + prng_n(g, 81)), (int64_t)(120 + prng_n(g, 81)), (int64_t)(120 + prng_n(g, 81)),
+				    (int64_t)(120 + prng_n(g, 81)), (int64_t)(120 + prng_n(g, 81)), (int64_t)prng_n(g, 3), (int64_t)prng_n(g, 300), (int64_t)prng_n(g, 1000000000),
+				    (int64_t)prng_n(g, 700000), (int64_t)-1, (int64_t)1, (int64_t)-1, (int64_t)-1, (int64_t)0);
+				continue;
+			}
+
+			plan_add(P, "step", "sign", 15, (int64_t)prng_n(g, 4), (prng_chance(g, 70) ? (int64_t)(1 + prng_n(g, 30)) : lens[prng_n(g, 10)]),
 			    (prng_chance(g, 60) ? lens[prng_n(g, 10)] : (int64_t)prng_n(g, 201)), (prng_chance(g, 80) ? (int64_t)(1 + prng_n(g, 20)) : lens[prng_n(g, 10)]),
 			    (prng_chance(g, 80) ? (int64_t)(1 + prng_n(g, 30)) : lens[prng_n(g, 10)]), (prng_chance(g, 80) ? (int64_t)(1 + prng_n(g, 60)) : lens[prng_n(g, 10)]),
 			    (int64_t)prng_n(g, 3), (prng_chance(g, 10) ? (int64_t)(100000 + prng_n(g, 2400)) : (int64_t)prng_n(g, 3000)),
 			    (int64_t)prng_n(g, 1000000000), (int64_t)prng_n(g, 700000),
 			    (prng_chance(g, 60) ? (int64_t)prng_n(g, 36) : (int64_t)-1), (prng_chance(g, 70) ? (int64_t)(1 + prng_n(g, 3)) : (prng_chance(g, 50) ? (int64_t)0 : (int64_t)prng_n(g, 90000))),
-			    (faulty && prng_chance(g, 30) ? (int64_t)prng_n(g, 2) : (int64_t)-1), (faulty && prng_chance(g, 70) ? (int64_t)prng_n(g, 8) : (int64_t)-1));
+			    (faulty && prng_chance(g, 30) ? (int64_t)prng_n(g, 2) : (int64_t)-1), (faulty && prng_chance(g, 70) ? (int64_t)prng_n(g, 8) : (int64_t)-1),
+			    (prng_chance(g, 35) ? (int64_t)(1 + prng_n(g, 6)) : (int64_t)0));
 		} else if (x < 70) {
 			plan_add(P, "step", "hash", 5, (int64_t)prng_n(g, 6), (prng_chance(g, 50) ? (int64_t)prng_n(g, 200) : (int64_t)prng_n(g, 5000)), (int64_t)prng_n(g, 6),
 			    (prng_chance(g, 50) ? (int64_t)(60 + prng_n(g, 10)) : (int64_t)prng_n(g, 200)), (int64_t)prng_n(g, 1000000));
@@ -714,6 +728,16 @@ engine_run(const struct plan * P)
 	int i, step = 0;
 
 	simalloc_free_hook = free_hook;
+	{
+		/* the process may run in any time zone; signing is defined in UTC */
+		static const char * const tzs[] = { NULL, "PST8PDT,M3.2.0,M11.1.0", "JST-9", "<+1245>-12:45", "UTC0" };
+		int tz = (int)plan_knob(P, "tz", 0);
+
+		if (tz > 0 && tz < 5) {
+			setenv("TZ", tzs[tz], 1);
+			tzset();
+		}
+	}
 	for (i = 0; i < P->n; i++) {
 		const struct pline * l = &P->l[i];
 
